@@ -87,6 +87,13 @@ Lemma broker_serialised : forallb broker_ok broker_io = true /\
   existsb (fun b => match bf_origin b with SField => String.eqb (bf_callee b) "WriteControlAd" | _ => false end) broker_io = true.
 Proof. vm_compute. auto. Qed.
 
+(* the premise of the split: whoever installs a cipher freezes both digests right
+   there, i.e. before the stream can be used by a writer and a reader at once *)
+Lemma digests_frozen_at_key_install :
+  forallb installer_ok key_installers = true /\
+  existsb (fun k => String.eqb (ki_fn k) "stream.Stream.SetSymmetricKey") key_installers = true.
+Proof. vm_compute. auto. Qed.
+
 Lemma stream_split : stream_split_ok stream_send stream_recv = true.
 Proof. vm_compute. reflexivity. Qed.
 
